@@ -52,6 +52,9 @@ SITES = {
     "nonel": ("==", "[1, (2,)]", "[1, (2,)]", None),
 }
 PLUGIN_SITES = {
+    # new values holding a character the file's single-byte source encoding cannot represent (written as \u escapes in the test)
+    "unencfix": ("==", "'z\\u0141\\u20ac'", "'old'", "fix"),
+    "unenccreate": ("==", "['\\u0141']", "", "create"),
     "hasrepr": ("==", "Opaque(1)", "", "create"),
     "ext": ("==", "outsource('x')", "", "create"),
 }
@@ -341,6 +344,10 @@ def _plugin_cases(tier):
             for st in ("plain", "comment") if enc == "bom" else ("plain",):
                 for F in (list(CATS), ["fix"], []):
                     cases.append({"kind": "encoding", "enc": enc, "names": p, "style": st, "F": F})
+    for enc in ("latin-1", "cp1252", "ascii"):
+        for p in (["unencfix", "fixs"], ["fixl", "unenccreate"], ["unencfix"], ["create", "unenccreate", "trimb"]):
+            for F in (list(CATS), ["create", "fix"]):
+                cases.append({"kind": "unenc", "enc": enc, "names": p, "style": "plain", "F": F})
     for p in itertools.product(list(SITES)[:: (3 if tier == "quick" else 1)], repeat=2):
         cases.append({"kind": "clean", "names": list(p), "F": list(CATS)})
         cases.append({"kind": "clean", "names": list(p), "F": ["fix"]})
@@ -360,6 +367,12 @@ def _plugin_file(c):
         return build_file([(c["names"], "plain"), (["none"], "comment")])
     if kind == "locale":
         return build_file([(c["names"], c["style"]), (["none"], "comment")])
+    if kind == "unenc":
+        src = build_file([(c["names"], c["style"]), (["none"], "plain")]).replace("\U0001f40d", "~")
+        note = "caf\xe9 \xfc\xdf" if c["enc"] != "ascii" else "plain"
+        if c["enc"] == "ascii":
+            src = src.encode("ascii", "backslashreplace").decode()
+        return "# -*- coding: %s -*-\n# %s\n" % (c["enc"], note) + src.replace("def test_0", "NOTE = '%s'\n\n\ndef test_0" % note, 1)
     if kind == "encoding":
         src = build_file([(c["names"], c["style"]), (["none"], "plain")])
         if c["enc"] != "bom":
@@ -422,7 +435,7 @@ def _judge_plugin(c):
                                 "if mode == 'exit1-prefix':\n    sys.stdout.write(''.join(text.splitlines(True)[:3])); sys.exit(1)\n"
                                 "if mode == 'exit0-garbage':\n    sys.stdout.write('def (:\\n'); sys.exit(0)\n"
                                 "if mode == 'exit3-full':\n    sys.stdout.write(text); sys.exit(3)\n")
-    codec = {"bom": "utf-8-sig", "latin-1": "latin-1", "cp1252": "cp1252"}[c["enc"]] if c["kind"] == "encoding" else "utf-8"
+    codec = {"bom": "utf-8-sig", "latin-1": "latin-1", "cp1252": "cp1252", "ascii": "ascii"}[c["enc"]] if c["kind"] in ("encoding", "unenc") else "utf-8"
     d = plugin.mk_project(dict({"test_something.py": src.encode(codec), "pyproject.toml": pp}, **extra))
     try:
         if c["kind"] == "locale":
@@ -443,6 +456,11 @@ def _judge_plugin(c):
         return ("text-outside-snapshot-arguments-changed", "the byte order mark at the start of the file is gone"), ctx
     if c["kind"] == "encoding" and not c["F"] and raw != src.encode(codec):
         return ("text-outside-snapshot-arguments-changed", "file changed without approved category"), ctx
+    if c["kind"] == "unenc" and (plugin.internal_error(r["out"]) or r["rc"] not in (0, 1)):
+        # the session could not write the value (whether it may fail is C18's business); this property: the file is intact
+        if raw != src.encode(codec):
+            return ("file-damaged-by-a-failed-rewrite", "rc=%s; the file is neither its old content nor a complete edit\n%s" % (r["rc"], r["out"][-500:])), ctx
+        return None, ctx
     if plugin.internal_error(r["out"]) or r["rc"] not in (0, 1):
         return ("internal-error", "rc=%s %s" % (r["rc"], r["out"][-700:])), ctx
     import black
@@ -457,8 +475,8 @@ def _judge_plugin(c):
     cats = []
     if c["kind"] == "import":
         cats = [(SITES.get(n) or PLUGIN_SITES[n])[3] for n in c["names"]] + [None]
-    elif c["kind"] in ("newline", "encoding", "locale", "fmtfail"):
-        cats = [SITES[n][3] for n in c["names"]] + [None]
+    elif c["kind"] in ("newline", "encoding", "locale", "fmtfail", "unenc"):
+        cats = [(SITES.get(n) or PLUGIN_SITES[n])[3] for n in c["names"]] + [None]
     else:
         cats = [SITES[n][3] for n in c["names"]] + [SITES[c["names"][0]][3]]
     allow = []
